@@ -72,7 +72,7 @@ func genC19(rng *rand.Rand, n int, emit func(Case), dist map[string]int) {
 		return httptest.NewServer(http.HandlerFunc(func(w http.ResponseWriter, r *http.Request) {
 			b, _ := io.ReadAll(r.Body)
 			mu.Lock()
-			hits = append(hits, c19Hit{name, r.Method, r.RequestURI, string(b), r.Header.Get("X-Custom") + "|" + r.Header.Get("X-Forwarded-Proto") + "|" + strings.SplitN(r.Header.Get("X-Forwarded-For"), ",", 2)[0]})
+			hits = append(hits, c19Hit{name, r.Method, r.RequestURI, string(b), r.Header.Get("X-Custom") + "|" + strings.Join(r.Header.Values("X-Forwarded-Proto"), ",") + "|" + strings.SplitN(r.Header.Get("X-Forwarded-For"), ",", 2)[0]})
 			mu.Unlock()
 			w.Header().Set("X-Upstream", name)
 			w.Header().Set("X-Up-Header", "v-"+name)
@@ -96,7 +96,18 @@ func genC19(rng *rand.Rand, n int, emit func(Case), dist map[string]int) {
 	defer hung.Close()
 	hu, _ := url.Parse(hung.URL)
 	urls["h0"] = hu
-	isDown := func(nm string) bool { return nm[0] == 'd' || nm[0] == 'h' }
+	isDown := func(nm string) bool { return nm[0] == 'd' || nm[0] == 'h' || nm[0] == 'e' }
+	// b0 / e0: targets with names of their own whose URL EQUALS that of a0 / d0 (one upstream given a double share, or a
+	// replacement entry registered before the old one is removed): membership goes by name, so they are targets like any other
+	srvName := func(nm string) string {
+		switch nm[0] {
+		case 'b':
+			return "a" + nm[1:]
+		case 'e':
+			return "d" + nm[1:]
+		}
+		return nm
+	}
 	names := []string{"a0", "a1", "a2", "a3", "d0", "d1", "d2"}
 	for _, nm := range names {
 		if nm[0] == 'd' {
@@ -108,6 +119,11 @@ func genC19(rng *rand.Rand, n int, emit func(Case), dist map[string]int) {
 		u, _ := url.Parse(s.URL)
 		urls[nm] = u
 		servers[nm] = s
+	}
+	for _, al := range []string{"b0", "e0"} {
+		cp := *urls[srvName(al)]
+		urls[al] = &cp
+		names = append(names, al)
 	}
 	defer func() {
 		for _, s := range servers {
@@ -303,7 +319,14 @@ func genC19(rng *rand.Rand, n int, emit func(Case), dist map[string]int) {
 				custom := fmt.Sprintf("c-%d", rng.Intn(1000))
 				req.Header.Set("X-Custom", custom)
 				// what an earlier proxy in front already recorded about the client travels on
+				protoWant := "https"
 				req.Header.Set("X-Forwarded-Proto", "https")
+				if rng.Intn(3) == 0 {
+					// a chain of proxies in front, each with its own header line: all of them travel on
+					req.Header.Add("X-Forwarded-Proto", "http")
+					protoWant = "https,http"
+					dist["requests_with_two_forwarded_proto_lines"]++
+				}
 				req.Header.Set("X-Forwarded-For", "203.0.113.7")
 				rec := httptest.NewRecorder()
 				nextLog = nextLog[:0]
@@ -359,7 +382,7 @@ func genC19(rng *rand.Rand, n int, emit func(Case), dist map[string]int) {
 						if uu, perr := url.Parse(upstreamURI); perr == nil && uu.Query().Get("code") == "404" {
 							wantCode = 404
 						}
-						if h.name != attempts[len(attempts)-1] || h.method != method || h.uri != upstreamURI || h.body != body || h.hdr != custom+"|https|203.0.113.7" {
+						if h.name != srvName(attempts[len(attempts)-1]) || h.method != method || h.uri != upstreamURI || h.body != body || h.hdr != custom+"|"+protoWant+"|203.0.113.7" {
 							ok, why = false, fmt.Sprintf("upstream saw %+v, sent %s %s body=%q X-Custom=%q (+ X-Forwarded-Proto https, X-Forwarded-For starting with 203.0.113.7) via attempts %v (expected upstream URI %s)", h, method, target, body, custom, attempts, upstreamURI)
 						}
 						if rec.Code != wantCode || rec.Body.String() != "body-from-"+h.name || rec.Header().Get("X-Up-Header") != "v-"+h.name {
